@@ -84,6 +84,7 @@ func (conn *Conn) VerifSnapshot() ConnSnapshot {
 
 // PersistConnSnapshot describes one pooled connection.
 type PersistConnSnapshot struct {
+	Conn     *Conn
 	ID       uintptr
 	Alive    bool
 	Closing  bool
@@ -111,7 +112,7 @@ func verifPC(pc *persistConn, now time.Time) PersistConnSnapshot {
 	alive := pc.alive
 	pc.mu.Unlock()
 	cs := pc.Conn.VerifSnapshot()
-	return PersistConnSnapshot{ID: verifID(pc), Alive: alive, Closing: cs.Closing, Shutdown: cs.Shutdown,
+	return PersistConnSnapshot{Conn: pc.Conn, ID: verifID(pc), Alive: alive, Closing: cs.Closing, Shutdown: cs.Shutdown,
 		NumCalls: pc.NumCalls(), Age: now.Sub(pc.lastTime)}
 }
 
